@@ -41,7 +41,14 @@ LdEvent(e) ==
         mem(a) == e.before[W16(a + 65536 - e.base) + 1]
         writable(a) == a >= 16384
         have == cursor <= Len(tape)
-    IN IF ~have
+    IN IF e.fast_off
+       THEN \* fast loading switched off by the host, the deck stopped: "no tape is consumed while stopped" - the ROM routine
+            \* waits for a signal that does not come, nothing is loaded and the next request still gets this block
+            /\ IF ~e.done /\ e.after = e.before THEN bad' = bad
+               ELSE Report("ldbytes", [why |-> "request served from a stopped deck although fast loading was switched off", req |-> e.req,
+                                       done |-> e.done])
+            /\ UNCHANGED cursor
+       ELSE IF ~have
        THEN \* "When no block is left the request never completes successfully and CPU state is not disturbed"
             /\ IF e.done /\ e.carry = 1
                THEN Report("ldbytes", [why |-> "request past the end of the tape completed successfully", req |-> e.req])
